@@ -1,20 +1,78 @@
 """Access to the *native* package (real NumPy floats, compiled extensions) built from the tree under check.
-Used by replay functions and bounded stand-ins.  When PYVC_REPO is a scratch copy, the compiled
-extension modules of /repo are linked into it if absent (a .pyx mutation then needs a rebuild, see build_ext)."""
+Used by replay functions and bounded stand-ins.
+
+The compiled extension modules in /repo correspond to the .pyx files of the pinned commit (their SHA-256 are in
+pyx_baseline.json).  When the tree under check has the same .pyx texts, the package is imported from the tree as it is
+(with /repo's .so linked in when the tree is a scratch copy).  When a .pyx differs, the whole package is copied to a scratch
+directory outside /repo and /verif, the extensions are rebuilt there from the current .pyx (`setup.py build_ext --inplace`),
+and the package is imported from that copy, so that native replays and bounded checks always run the code under check."""
+import fcntl
 import glob
+import hashlib
 import importlib
+import json
 import os
+import shutil
 import subprocess
 import sys
+import tempfile
 
 REPO = os.environ.get('PYVC_REPO', '/repo')
+_HERE = os.path.dirname(os.path.abspath(__file__))
 _loaded = [None]
+
+
+def _pyx_changed():
+    base = json.load(open(os.path.join(_HERE, 'pyx_baseline.json')))
+    cur = {}
+    for f in sorted(glob.glob(os.path.join(REPO, 'atomman/**/*.pyx'), recursive=True)):
+        cur[os.path.relpath(f, REPO)] = hashlib.sha256(open(f, 'rb').read()).hexdigest()
+    return cur != base
+
+
+def _source_digest():
+    h = hashlib.sha256()
+    for f in sorted(glob.glob(os.path.join(REPO, 'atomman/**/*.py*'), recursive=True)):
+        if f.endswith(('.py', '.pyx')):
+            h.update(os.path.relpath(f, REPO).encode())
+            h.update(open(f, 'rb').read())
+    return h.hexdigest()[:20]
+
+
+def _rebuilt_copy():
+    root = os.path.join(tempfile.gettempdir(), 'pyvc_ext')
+    os.makedirs(root, exist_ok=True)
+    d = os.path.join(root, _source_digest())
+    lock = open(os.path.join(root, '.lock'), 'w')
+    fcntl.flock(lock, fcntl.LOCK_EX)
+    try:
+        if not os.path.exists(os.path.join(d, '.built')):
+            # keep at most two older builds
+            old = sorted((x for x in glob.glob(os.path.join(root, '*')) if os.path.isdir(x)), key=os.path.getmtime)
+            for x in old[:-2]:
+                shutil.rmtree(x, ignore_errors=True)
+            shutil.rmtree(d, ignore_errors=True)
+            os.makedirs(d)
+            subprocess.run(['rsync', '-a', '--exclude', '.git', '--exclude', 'doc', '--exclude', 'build', '--exclude', '*.so', '--exclude', '*.c',
+                            '--exclude', 'tests', REPO.rstrip('/') + '/', d + '/'], check=True)
+            r = subprocess.run(['/venv/bin/python', 'setup.py', 'build_ext', '--inplace', '-j', '8'], cwd=d, capture_output=True, text=True)
+            if r.returncode != 0:
+                raise RuntimeError('rebuilding the extensions from the current .pyx failed:\n' + r.stderr[-2000:])
+            shutil.rmtree(os.path.join(d, 'build'), ignore_errors=True)
+            open(os.path.join(d, '.built'), 'w').write('ok')
+    finally:
+        fcntl.flock(lock, fcntl.LOCK_UN)
+        lock.close()
+    return d
 
 
 def atomman():
     if _loaded[0] is not None:
         return _loaded[0]
-    if os.path.realpath(REPO) != '/repo':
+    root = REPO
+    if _pyx_changed():
+        root = _rebuilt_copy()
+    elif os.path.realpath(REPO) != '/repo':
         for so in glob.glob('/repo/atomman/**/*.so', recursive=True):
             rel = os.path.relpath(so, '/repo')
             dst = os.path.join(REPO, rel)
@@ -23,12 +81,15 @@ def atomman():
                     os.symlink(so, dst)
                 except OSError:
                     pass
+    if os.path.realpath(root) != '/repo':
         for k in [k for k in sys.modules if k == 'atomman' or k.startswith('atomman.')]:
             del sys.modules[k]
-        sys.path.insert(0, REPO)
+        sys.path.insert(0, root)
     import warnings
     with warnings.catch_warnings():
         warnings.simplefilter('ignore')
         am = importlib.import_module('atomman')
+    if os.path.realpath(os.path.dirname(os.path.dirname(am.__file__))) != os.path.realpath(root):
+        raise RuntimeError('native atomman imported from %s, expected %s' % (am.__file__, root))
     _loaded[0] = am
     return am
